@@ -36,6 +36,10 @@ pub struct Case9 {
     /// honest submissions after the failure (further passes)
     after: Vec<Vec<(u8, u8, CandSeed)>>,
     resolve: bool,
+    /// honest submissions enter through the witnessed + ticketed path (receipt correlations
+    /// are then part of what a failed pass must restore)
+    #[serde(default)]
+    ticketed: bool,
 }
 
 fn subs_vec(max: usize) -> impl Strategy<Value = Vec<(u8, u8, CandSeed)>> {
@@ -58,8 +62,9 @@ fn case9() -> impl Strategy<Value = Case9> {
         ],
         prop::collection::vec(subs_vec(4), 1..3),
         any::<bool>(),
+        any::<bool>(),
     )
-        .prop_map(|(mut world, warmup, honest, fail_at, kind, after, resolve)| {
+        .prop_map(|(mut world, warmup, honest, fail_at, kind, after, resolve, ticketed)| {
             // all-or-nothing is about passes: make every inbox accept everything so that the
             // failing intent is really admitted
             for (_, hs) in &mut world.worldlines {
@@ -69,7 +74,7 @@ fn case9() -> impl Strategy<Value = Case9> {
                     }
                 }
             }
-            Case9 { world, warmup, honest, fail_at, kind, after, resolve }
+            Case9 { world, warmup, honest, fail_at, kind, after, resolve, ticketed }
         })
 }
 
@@ -124,13 +129,17 @@ fn failing_prog(w: &World, wl: u8, kind: &FailKind) -> Prog {
     Prog { cond: MatchCond::Always, instrs, fp }
 }
 
-fn submit_all(w: &mut World, seed: &WorldSeed, subs: &[(u8, u8, CandSeed)], salt: u32) {
+fn submit_all(w: &mut World, _seed: &WorldSeed, subs: &[(u8, u8, CandSeed)], salt: u32, ticketed: bool) {
     for (i, (wl, h, p)) in subs.iter().enumerate() {
         let wl = w.wl_of(*wl);
         let h = w.head_of(wl, *h);
         let prog = w.realise_prog(wl, p);
         let env = IngressEnvelope::local_intent(IngressTarget::ExactHead { key: head_key(wl, h) }, kind(0), encode_prog(&prog, salt.wrapping_add(i as u32)));
-        let _ = w.submit(env);
+        if ticketed {
+            let _ = w.submit_ticketed(env, 0, true);
+        } else {
+            let _ = w.submit(env);
+        }
     }
 }
 
@@ -168,7 +177,7 @@ fn check_ok_pass(w: &mut World, what: &str) -> Check {
 fn check9(_ctx: &Ctx, c: &Case9, probe: &mut Probe) -> Check {
     let mut w = build_world(&c.world);
     for (i, subs) in c.warmup.iter().enumerate() {
-        submit_all(&mut w, &c.world, subs, 100 * i as u32);
+        submit_all(&mut w, &c.world, subs, 100 * i as u32, c.ticketed);
         check_ok_pass(&mut w, &format!("warm-up pass {i}"))?;
     }
     // the failing pass: honest work goes to the other heads, the failing head holds the
@@ -183,7 +192,7 @@ fn check9(_ctx: &Ctx, c: &Case9, probe: &mut Probe) -> Check {
         let k = head_key(wl2, w.head_of(wl2, *h));
         k != fkey && !(wl2 == fwl && k < fkey)
     }).collect();
-    submit_all(&mut w, &c.world, &honest, 5000);
+    submit_all(&mut w, &c.world, &honest, 5000, c.ticketed);
     let fprog = failing_prog(&w, fwl, &c.kind);
     let fenv = IngressEnvelope::local_intent(IngressTarget::ExactHead { key: fkey }, kind(0), encode_prog(&fprog, 777));
     match w.submit(fenv.clone()) {
@@ -293,7 +302,7 @@ fn check9(_ctx: &Ctx, c: &Case9, probe: &mut Probe) -> Check {
                 let wl2 = w.wl_of(*wl);
                 head_key(wl2, w.head_of(wl2, *h)) != fkey
             }).collect();
-            submit_all(&mut w, &c.world, &filtered, 9000 + 100 * i as u32);
+            submit_all(&mut w, &c.world, &filtered, 9000 + 100 * i as u32, c.ticketed);
             check_ok_pass(&mut w, &format!("pass {i} after the fault"))?;
         }
     }
@@ -303,6 +312,9 @@ fn check9(_ctx: &Ctx, c: &Case9, probe: &mut Probe) -> Check {
         vensure!(state_fp(&r) == state_fp(w.frontier(wl)), "C09/replay-differs-from-frontier-after-fault", "worldline {wl}");
     }
     probe.class(format!("kind:{:?}", c.kind));
+    if c.ticketed {
+        probe.class(format!("ticketed:correlations={}", w.runtime.receipt_correlations().count().min(6)));
+    }
     probe.class(format!("position:{}of{}", pos.min(5), order.len().min(6)));
     if pos > 0 {
         probe.nontrivial();
